@@ -879,6 +879,11 @@ class SetItem(Contract):
         for rank in (2, 3) if tier != "quick" else (2,):
             yield {"name": "r%d-ndmask-scalar" % rank, "rank": rank, "kinds": ["ndmask"], "spelling": "ndmask", "indexing": "label",
                    "value": "scalar", "inplace": True, "cast": False, "data_kind": "f"}
+        # the full N-d mask path has its own write method: cast=True must reach it too (setna / fillna on N-d integer data go this way)
+        for dk, vk in (("I", "f"), ("f", "f"), ("I", "i")):
+            for inplace in (True, False):
+                yield {"name": "r2-ndmask-cast-%s<-%s-%s" % (dk, vk, "inplace" if inplace else "copy"), "rank": 2, "kinds": ["ndmask"], "spelling": "ndmask",
+                       "indexing": "label", "value": "scalar", "inplace": inplace, "cast": True, "data_kind": dk, "value_kind": vk}
 
     def bound_lengths(self, case):
         names = ["lab%d.n" % d for d in range(case["rank"])]
